@@ -424,6 +424,12 @@ def explore_fresh(chunk):
 
 
 def replay(case, verbose=False):
+    if "libcall" in case:
+        d1, d2, before, later = run_twice(_sweep_session(), case["libcall"])
+        if verbose:
+            print(case["libcall"], d1, d2, before != (later or [None])[0])
+        return d2 is not None and (d2 != d1 or later[0] != before
+                                   or later[1] != before)
     CONFIG[0] = case.get("config", "home")
     write_modules(CONFIG[0])
     random_sequence()     # before any session under test exists
@@ -444,6 +450,114 @@ def replay(case, verbose=False):
                   "" if ok else "  <-- MISMATCH")
         bad = bad or not ok
     return bad
+
+
+# ---- failing library calls leave nothing behind --------------------------------
+_SW = {}
+NOT_SOURCE = {"[1, itself]", "<*a = 1, _proto_ = itself*>",
+              "<*_proto_ = cyclic*>", "10^400"}
+PROBE = ("[1 + 1, sum([1, 2]), string(<<2, 1>>), length('ab'), "
+         "type(stdout), do undefined_name_q catch all 'u' end]")
+
+
+def _sweep_session():
+    from mc import sweep
+    if "s" not in _SW:
+        _SW["s"] = sweep.SweepSession(legacy=True)
+    return _SW["s"]
+
+
+def fingerprint(sw):
+    """what a later call could see of the interpreter: session and base
+    symbols, module registry, module stack, generator state, a probe"""
+    it = sw.session.interp
+    base = it.base_environment
+    F = core.ckl.functions
+    o = core.outcome_of(lambda: it.interpret(PROBE, "probe"))
+    return [sorted(it.environment.map.keys()), sorted(base.map.keys()),
+            sorted(base.getModules().keys()), list(base.modulestack),
+            F.seed, list(o)]
+
+
+def call_text(fname, argnames):
+    if "->" in fname:
+        fname = "M_" + fname
+    return fname + "(" + ", ".join(argnames) + ")"
+
+
+def run_twice(sw, text):
+    """-> (details of the first run, details of the second, state before,
+    state after); details are None when the call succeeds"""
+    it = sw.session.interp
+    F = core.ckl.functions
+
+    def once():
+        sw.session._bind_streams()
+        core.set_fuel(30000, 30000)
+        core.arm(4.0)
+        try:
+            it.interpret(text, "session")
+            return None
+        except core.CklRuntimeError as e:
+            return ["rt", repr(e.value), str(e.msg), str(e.pos),
+                    [str(x) for x in e.stacktrace]]
+        except core.CklSyntaxError as e:
+            return ["syn", str(e.msg), str(e.pos)]
+        except BaseException as e:
+            return ["escape", type(e).__name__]   # C13's matter
+        finally:
+            core.disarm()
+            core.set_fuel(10 ** 12, 10 ** 12)
+    F.seed = 1
+    sw.session._bind_streams()
+    before = fingerprint(sw)
+    d1 = once()
+    if d1 is None or d1[0] == "escape":
+        # a call that succeeds may change the session: start the next one
+        # from a known generator state and without its definitions
+        return d1, None, None, None
+    mid = fingerprint(sw)
+    d2 = once()
+    after = fingerprint(sw)
+    return d1, d2, before, [mid, after]
+
+
+def explore_library_failures(chunk):
+    from mc import sweep
+    agg = core.Agg()
+    sw = _sweep_session()
+    fmap = dict(sw.funcs)
+    names = [n for n, _ in sweep.POOL if n not in NOT_SOURCE]
+    sub = [n for n in sweep.SUBPOOL if n not in NOT_SOURCE]
+    for fname in chunk["funcs"]:
+        n = sweep.nparams_of(fmap[fname])
+        tuples = [()]
+        if n >= 1:
+            tuples += [(a,) for a in names]
+        if n >= 2:
+            pool2 = names if chunk["tier"] == "thorough" else sub
+            tuples += [(a, b) for a in pool2 for b in pool2]
+        for t in tuples:
+            text = call_text(fname, t)
+            d1, d2, before, later = run_twice(sw, text)
+            agg.count("steps")
+            agg.cls(("libcall", fname, d1[0] if d1 else "ok"))
+            if d2 is None:
+                continue
+            bad = None
+            if d2 != d1:
+                bad = ("repeat-differs", d1, d2)
+            elif later[0] != before:
+                bad = ("residue", before, later[0])
+            elif later[1] != before:
+                bad = ("residue-after-repeat", before, later[1])
+            if bad:
+                agg.violation(
+                    {"what": "library-call:" + bad[0], "callee": fname},
+                    {"libcall": text},
+                    bad[1], bad[2], size=len(text))
+        agg.count("cases")
+    return agg
 
 
 def main(tier, seed):
@@ -514,6 +628,10 @@ def main(tier, seed):
             {"config": config, "whos": ["A"], "cmds": ORDER, "histories": c}
             for c in core.chunked(hists, core.NPROC * 2)])
         agg.merge(fa)
+    fnames = [f for f, _ in _sweep_session().funcs]
+    agg.merge(core.pmap(explore_library_failures,
+                        [{"funcs": c, "tier": tier}
+                         for c in core.chunked(fnames, core.NPROC * 4)]))
     core.finish(
         PID, tier, seed, agg, t0,
         rule=(f"one interpreter: " + "; ".join(
